@@ -4,6 +4,8 @@ Utilities for working with HREFs.
 
 from typing import List
 
+from urllib.parse import quote
+
 
 def parent(href: str) -> str:
     """
@@ -39,3 +41,12 @@ def relative(from_href: str, to_href: str) -> str:
     down_to_new = to_parts[len(common_parts) :]
 
     return "/".join(up_to_common + down_to_new)
+
+
+def relative_url(from_href: str, to_href: str) -> str:
+    """
+    Like :py:func:`relative` but with the result percent-encoded so that it may
+    be used directly as a URL (e.g. in a HTML href attribute) even when page
+    paths contain URL-significant characters (e.g. ``#`` or ``?``).
+    """
+    return quote(relative(from_href, to_href))
